@@ -245,8 +245,10 @@ Definition adopt (d : td) (added : Z) (out : list centroid) : td :=
 
 (* update of a finite value (the NaN / infinity filter: td_update_with, at the end of this file);
    [pre] is the digest after the compress this update may trigger (None when the buffer is not full) *)
+(* `self.buffer.len() >= capacity * BUFFER_MULTIPLIER` (repair 5ca8d9c: was `==`, which a decoded image
+   announcing more buffered values than the capacity never met) *)
 Definition td_needs_compress_on_update (d : td) : bool :=
-  (Z.of_nat (length (td_buf d)) =? buf_limit (td_k d))%Z.
+  (buf_limit (td_k d) <=? Z.of_nat (length (td_buf d)))%Z.
 Definition td_push (d : td) (x : Q) : td :=
   mkTd (td_k d) (td_rev d) (omin (td_min d) x) (omax (td_max d) x) (td_cs d) (td_cw d) (td_buf d ++ [x]).
 
